@@ -27,7 +27,7 @@ def h01a(n, k):
         numbers, D, dist, system, radii, bt, clusters = SC.make_prestate(e, n, k)
         mt = e.real("merge_threshold", lo=0, hi=1)
         mr = e.real("merge_radius")
-        index_sets = [sorted(c.indices) for c in clusters]
+        index_sets = [list(c.indices) for c in clusters]
         s = SBCM.SBC()
         exc = None
         with patched(SBCM, np=NP), patched(G, np=NP), patched(CLM, np=NP), SC.dbscan_stub():
@@ -66,6 +66,8 @@ def h01a(n, k):
         e.reach(f"H01a:k_out={len(out)}")
         if any(len(set(a) & set(b)) for i, a in enumerate(index_sets) for b in index_sets[i + 1:]):
             e.reach("H01a:overlapping-input")
+        if any(list(a) != sorted(a) for a in index_sets):
+            e.reach("H01a:descending-members")
         e.sample({"numbers": numbers.tolist(), "input_clusters": index_sets, "output_clusters": [sorted(int(x) for x in c.indices) for c in out]})
 
         def val(env):
@@ -301,12 +303,12 @@ def main(tier, seed, only=None):
     for f in (SBCM.SBC.get_clusters, SBCM.SBC._merge_clusters, SBCM.SBC._localize_clusters, SBCM.SBC._clean_clusters, CLM.Cluster, G.get_clusters):
         rep.function(f)
     if tier == "quick":
-        jobs = [("H01a", f"H01a:n{n}:k{k}", h01a(n, k)) for n, k in ((2, 2), (3, 2), (3, 3))]
+        jobs = [("H01a", f"H01a:n{n}:k{k}", h01a(n, k)) for n, k in ((3, 1), (4, 1), (2, 2), (3, 2), (3, 3))]
         jobs += [("H01b", "H01b:front:regular:n1:u", h01b("regular", 1, True, "front")), ("H01b", "H01b:front:regular:n2:w", h01b("regular", 2, False, "front"))]
         jobs += [("H01b", f"H01b:front:{c}:n2", h01b(c, 2, False, "front")) for c in CELLS_B if c != "regular"]
         jobs += [("H01b", "H01b:loop:n2", h01b("regular", 2, False, "loop"))]
     else:
-        jobs = [("H01a", f"H01a:n{n}:k{k}", h01a(n, k)) for n, k in ((2, 2), (2, 3), (3, 2), (3, 3), (4, 2))]
+        jobs = [("H01a", f"H01a:n{n}:k{k}", h01a(n, k)) for n, k in ((3, 1), (4, 1), (2, 2), (2, 3), (3, 2), (3, 3), (4, 2))]
         jobs += [("H01b", f"H01b:front:{c}:n{n}:w", h01b(c, n, False, "front")) for c in CELLS_B for n in (1, 2, 3)]
         jobs += [("H01b", f"H01b:front:regular:n{n}:u", h01b("regular", n, True, "front")) for n in (1, 2)]      # unwrapped: the cell gets symbolic (scaled by the atoms' span); n=3 did not finish in 80 min
         jobs += [("H01b", f"H01b:loop:n{n}", h01b("regular", n, False, "loop")) for n in (1, 2, 3)]
@@ -315,8 +317,8 @@ def main(tier, seed, only=None):
             continue
         rep.merge_stats(explore(fn, name, timeout_ms=20000, budget_s=1500 if tier == "quick" else 12000, chunk_paths=200, chunk_s=15, validate_every=20), fam)
     if not only:
-        rep.require_reached("H01a:overlapping-input", "H01b:ValueError", "H01b:returned")
-    rep.bounds = {"H01a": "k clusters over n atoms, (n,k) in " + ("(2,2),(3,2),(3,3)" if tier == "quick" else "(2,2),(2,3),(3,2),(3,3),(4,2)") + "; arbitrary non-empty index sets, <=2 species, symbolic symmetric distance matrix, merge_threshold in [0,1], merge_radius, bond_threshold>0 symbolic",
+        rep.require_reached("H01a:overlapping-input", "H01a:descending-members", "H01b:ValueError", "H01b:returned")
+    rep.bounds = {"H01a": "k clusters over n atoms, (n,k) in " + ("(3,1),(4,1),(2,2),(3,2),(3,3)" if tier == "quick" else "(3,1),(4,1),(2,2),(2,3),(3,2),(3,3),(4,2)") + "; the first cluster's members listed ascending or descending" + "; arbitrary non-empty index sets, <=2 species, symbolic symmetric distance matrix, merge_threshold in [0,1], merge_radius, bond_threshold>0 symbolic",
                   "H01b": "whole get_clusters, n=2 (1 for unwrapped positions in the quick tier; 1..3 thorough) atoms; front: 8 pbc combinations x cells regular / zero third vector / zero first vector x (un)wrapped symbolic positions with a finder that finds nothing; loop: fully periodic regular cell with every FinderStub answer and a symbolic matrix"}
     rep.stubs = ["FinderStub for PeriodicFinder.get_region (None or arbitrary basis subset; arbitrary mask with mask[seed]=True)", "DBSCANStub (components of D<=eps)",
                  "get_distances -> arbitrary symbolic radii-corrected matrix (over-approximates the extension)", "numpy.random.default_rng -> nondeterministic choice, seed recorded",
